@@ -6,7 +6,7 @@ from ..strategies import sample_cases, sim_cases, spec_strategy
 from ._sim_common import frac, summarize
 
 ID = "C11"
-RULE = ("Configurations as for C05 (scripted normal and high-frequency agents + traced built-in agents). submitted_order / "
+RULE = ("Configurations as for C05 (scripted normal and high-frequency agents + traced built-in agents; in half of the runs a TradingHaltRule on some of the markets, so that rounds stop a market half-way through their dispatch). submitted_order / "
         "canceled_order / executed_order calls recorded per agent are compared as multisets (and, per agent, in order) with "
         "the agents' own accepted orders / cancels and with the fills seen by the logger (buyer once + seller once, twice on "
         "a self-trading agent, nobody else; record fields equal); at every executed_order call the holdings of ALL agents "
@@ -32,7 +32,7 @@ def _strategy(tier):
     # many small resting orders and occasional large crossing ones: rounds with many fills and parties
     spec = spec_strategy(offs=[-3, -2, -1, 0, 1, 2, 3], volumes=(1, 6))
     return sim_cases(builtin=True, steps=(2, 20) if big else (2, 8), agents_per_group=(2, 5), groups=(1, 3), spec=spec, n_markets=(1, 2),
-                     caps=(1, 5), decline_weight=0)
+                     caps=(1, 5), decline_weight=0, rules=True)
 
 
 PARTS = {"sim": {"check": check_case, "strategy": _strategy, "budget": {"quick": 3000, "thorough": 40000}}}
